@@ -1067,7 +1067,9 @@ def monitors(case, script, res, impl):
     for k, (o, i) in enumerate(zip(script.ops, impl)):
         if o[0] == "begin" and i["obs"][1] == "nopool":
             c = o[1]
-            later = [m for m in msgs if m["seq"] > i["prev"] and m.get("tag") in ("Q", "P", "B", "E", "S") and ("'%s_" % c in ((m.get("detail") or {}).get("sql") or "") or m["seq"] < i["seq"])]
+            sent0 = [e["seq"] for e in ev if e.get("ev") == "sent" and e.get("who") == c and i["prev"] < e["seq"] < i["seq"]]
+            t0_ = sent0[0] if sent0 else i["prev"]       # from the moment this client's BEGIN left (session-mode clients of other pools may talk before it)
+            later = [m for m in msgs if m["seq"] > t0_ and m.get("tag") in ("Q", "P", "B", "E", "S") and ("'%s_" % c in ((m.get("detail") or {}).get("sql") or "") or m["seq"] < i["seq"])]
             if later:
                 V.append(("S5", "%s: client %s was told 'No pool configured' but its statements reached a backend: %s" % (case["name"], c, [(m["who"], m["detail"].get("sql")) for m in later])))
     auth = case["extra"].get("auth")
@@ -1108,6 +1110,113 @@ def stale_mode_hits(case, script, res):
             if mode == ["Session"] and script.clients.get(c2) == (db, usr):
                 hits.append("%s: pool %s is in session mode, yet server connection %s served client %s and then client %s while %s was still connected" % (case["name"], db, conn, c1, c2, c1))
     return hits
+
+
+# ------------------------------------------------------------------------------------ the real binary: autoreload + SIGHUP
+
+AUTORELOAD_MS = 200
+
+
+def setup_extra():
+    """setup.sh: pre-build the real pgcat binary (shared with C17)"""
+    from props import c17
+    return c17.setup_extra()
+
+
+def binary_leg(run, mockd):
+    """main.rs' autoreload task and SIGHUP arm in the REAL process: the file on disk goes first -> second -> garbage -> third ->
+    third again (rewritten, unchanged) -> fourth -> garbage + SIGHUP -> fifth + SIGHUP; after each step a NEW client logs in and asks
+    which server answers.  Sentence: an invalid file changes nothing AND does not stop later valid files from being loaded.
+    Returns a dict for the evidence; violations are reported here."""
+    import os, signal, subprocess, time
+    from props import c17
+    okb, out = c17.build_pgcat()
+    if not okb:
+        run.broken.append("pgcat binary does not build: " + out[-400:])
+        return {"ran": False}
+    d = os.path.join(vlib.TMP, "c14bin_%d" % os.getpid())
+    os.makedirs(d, exist_ok=True)
+    names = ["b0", "b1", "b2", "b3", "b4"]
+    mock = subprocess.Popen([mockd], stdin=subprocess.PIPE, stdout=subprocess.PIPE, stderr=subprocess.DEVNULL)
+    info = {"ran": True, "steps": []}
+    proc = None
+    try:
+        mock.stdin.write((json.dumps({"backends": [{"name": n} for n in names]}) + "\n").encode()); mock.stdin.flush()
+        ports = json.loads(mock.stdout.readline())["ports"]
+        port = c17.free_port()
+        path = os.path.join(d, "pgcat.toml")
+
+        def text(k):
+            sem = {"general": {"port": port, "autoreload": AUTORELOAD_MS}, "pools": {"pa": pool([[names[k], "primary"]])}}
+            t = render(sem, 0)
+            for n in names:
+                t = t.replace("@PORT:%s@" % n, str(ports[n]))
+            return t
+
+        def put(t):
+            tmp = path + ".tmp"
+            open(tmp, "w").write(t)
+            os.replace(tmp, path)          # a reload never sees a half-written file
+
+        def who():
+            """a NEW client: (backend that answers | error text)"""
+            try:
+                c = c17.PgClient(port)
+                fr, o = c.login({"user": "u", "database": "pa"}, "pw")
+                if not any(f["t"] == "Z" for f in fr):
+                    c.close(); return "login:" + str([f.get("fields", {}).get("M") for f in fr if f["t"] == "E"])
+                fr, o = c.query("SELECT 'bin'")
+                c.close()
+                rows = [f["cols"] for f in fr if f["t"] == "D"]
+                return rows[0][0] if rows else "noreply:" + o
+            except OSError as e:
+                return "connect:" + str(e)
+
+        put(text(0))
+        logf = open(os.path.join(d, "pgcat.log"), "w")
+        proc = subprocess.Popen([c17.PGCAT_BIN, path, "--no-color"], stdout=logf, stderr=subprocess.STDOUT, cwd=d)
+        t0 = time.monotonic()
+        while time.monotonic() - t0 < 15 and proc.poll() is None and "Waiting for clients" not in open(os.path.join(d, "pgcat.log")).read():
+            time.sleep(0.02)
+        wait = 3.5 * AUTORELOAD_MS / 1000.0
+        garbage = "[general\nthis is = = not toml\n"
+        plan = [("first", None, None, 0), ("second", text(1), None, 1), ("garbage", garbage, None, 1), ("third", text(2), None, 2),
+                ("third-unchanged", text(2), None, 2), ("fourth", text(3), None, 3), ("garbage+SIGHUP", garbage, "hup", 3), ("fifth+SIGHUP", text(4), "hup", 4),
+                ("first-again (autoreload after SIGHUP)", text(0), None, 0)]
+        bad = []
+        for label, t, sig, want in plan:
+            if t is not None:
+                put(t)
+            if sig:
+                os.kill(proc.pid, signal.SIGHUP)
+                time.sleep(0.25)
+            elif t is not None:
+                time.sleep(wait)
+            got = who()
+            alive = proc.poll() is None
+            info["steps"].append({"file": label, "answers": got, "expected": names[want], "alive": alive})
+            if got != names[want] or not alive:
+                bad.append((label, got, names[want], alive))
+        if bad:
+            label, got, want, alive = bad[0]
+            run.violation("counterexample", "real pgcat binary, autoreload = %d ms: after the file became '%s' a new client is answered by %s, the last valid file says %s "
+                          "(process alive: %s); sequence so far: %s" % (AUTORELOAD_MS, label, got, want, alive, [(x["file"], x["answers"]) for x in info["steps"]]),
+                          {"correspondence": "binary leg", "binary_leg": info["steps"], "input": {"sequence": [p_[0] for p_ in plan], "autoreload_ms": AUTORELOAD_MS}})
+    finally:
+        if proc and proc.poll() is None:
+            proc.kill()
+            try:
+                proc.wait(5)
+            except Exception:
+                pass
+        try:
+            mock.stdin.close(); mock.wait(3)
+        except Exception:
+            mock.kill()
+        if not os.environ.get("C14_KEEP"):
+            import shutil
+            shutil.rmtree(d, ignore_errors=True)
+    return info
 
 
 # ------------------------------------------------------------------------------------ driver
@@ -1173,17 +1282,23 @@ def check(run):
         "a ConnectionPool lives as long as one clone (Arc) exists and closing the last clone closes its idle server connections; bb8 Fifo hand-out (server_round_robin defaults to true); one server address per pool; pool_size not modelled (C04)",
         "reloads and client steps are atomic in the model: ArcSwap store/load of CONFIG and POOLS are single atomic pointer swaps and a client reads POOLS once per transaction start; "
         "a reload racing with itself (RELOAD + SIGHUP at once) is not modelled",
-        "PostgreSQL = harness/src/mockpg.rs; the SIGHUP arm is the harness' transcription of main.rs (same reload_config call), real signal delivery is not exercised",
+        "PostgreSQL = harness/src/mockpg.rs; in the wire cases the SIGHUP arm is the harness' transcription of main.rs; the binary leg runs the real process (autoreload task, real SIGHUP)",
+        "idle_client_in_transaction_timeout is the one [general] setting a client reads from CONFIG (modelled: snapshot per checkout); other general settings live in PoolSettings of the pool object",
+        "PAUSE: one flag per (pool, user), shared with a rebuilt object, cleared when a reload removes the pool; blocking on a paused pool that is KEPT is C16's and not exercised here",
     ]
-    run.cov["trusted_base"] = ["coqc 8.16.1 kernel", "vm_compute", "hand-written model coq/Reload/Model.v", "harness (wire.rs, reloadobs.rs, pooler.rs, mockpg.rs, client.rs)",
+    run.cov["trusted_base"] = ["coqc 8.16.1 kernel", "vm_compute", "hand-written model coq/Reload/Model.v", "harness (wire.rs, reloadobs.rs, pooler.rs, mockpg.rs, client.rs, mockd.rs)", "props/c17.py build_pgcat/PgClient (binary leg)",
                                "props/c14.py (file grammar, abstraction file -> cfg, trace reader, monitors)", "Print Assumptions: Closed under the global context"]
     ok, log = vlib.prove(run, COQ_FILES, "Reload/Props.v")
     run.log("proof ok=%s" % ok)
-    bok, blog, bins = vlib.cargo_build(["wire"])
+    bok, blog, bins = vlib.cargo_build(["wire", "mockd"])
     if not bok:
         run.violation("tie-broken", "harness does not build against /repo", {"correspondence": "wire harness build", "log": blog[-3000:]}, found_input=False)
         return
     wire = bins["wire"]
+    import threading
+    leg = {}
+    th = threading.Thread(target=lambda: leg.update(binary_leg(run, bins["mockd"])))   # ~8 s of waiting: runs beside the wire cases
+    th.start()
     cases = make_cases(run.rng, quick)
     run.log("%d cases" % len(cases))
     scripts, results, models = run_cases(run, wire, cases, with_model=ok)
@@ -1215,6 +1330,8 @@ def check(run):
         run.violation("tie-broken", "reload model and implementation disagree on %s [%s, %s]: %s" % (case["name"], case["timing"], case["trigger"], dis),
                       {"correspondence": "coq/Reload/Model.v trace2 vs wire trace", "input": slim(case), "case": case_key(case), "disagreement": dis,
                        "model_obs": [s["obs"] for s in model["steps"]]}, found_input=False)
+    th.join()
+    run.cov["binary_leg"] = leg
     run.cov["traces_validated_against_impl"] = stats["validated"]
     run.cov["distinct_nontrivial"] = len(distinct)
     run.cov["rule"] = ("old file (2 bases x 4 renderings) x new file: %d valid kinds (identical, reformatted, defaults written out, general-only, server replaced/added/swapped, "
@@ -1222,7 +1339,10 @@ def check(run):
                        "33 validate() rules, file deleted), 2 valid files whose pools cannot be built (regression of F12: must be a no-op, the retry with the server back must rebuild) — each x 3 moments (before the first transaction / inside an open "
                        "transaction / between transactions), trigger rotating over reload_config / admin RELOAD / SIGHUP arm; every case has a second reload (same file, a valid "
                        "changed file after a rejected one, or the revived server) and transactions of 3-6 clients before/after; + seeded chains of two valid files. "
-                       "distinct = distinct (old text, new texts, timing, trigger); all non-trivial (>= 2 reloads, >= 6 transactions)"
+                       "general-section kinds (idle_client_in_transaction_timeout set/lowered/raised/removed, connect_timeout, healthcheck, ban_time, user statement_timeout) have the client "
+                       "silent inside its open transaction across the reload and again in a new transaction; removal kinds also run with the pool PAUSEd before the reload, RESUME and a "
+                       "new login of the removed user after it. Binary leg: the real pgcat process with autoreload = 200 ms, file first/second/garbage/third/unchanged/fourth/garbage+SIGHUP/"
+                       "fifth+SIGHUP/first, a new client after each. distinct = distinct (old text, new texts, timing, trigger); all non-trivial (>= 2 reloads, >= 6 transactions)"
                        % (len(valid_kinds()), len(invalid_kinds())))
     run.cov["input_distribution"] = {"cases": len(cases), "first_file_kind": kinds, "distinct_old_new_pairs": len(pairs), "model_steps_compared": stats["steps"],
                                      "observations": stats["obs"], "f12_regression_cases": sum(1 for c in cases if c["files"][0].get("dead")), "f12_hits": len(f12_seen), "d2_stale_mode_hits": len(stats.get("d2", []))}
